@@ -104,6 +104,8 @@ int main(int argc, char** argv)
 				if (check("replace", s.replace(pp, "<>"), rr)) return 1; }
 			std::string tr = st; size_t b = tr.find_first_not_of(" \t\n\r"); tr = b == std::string::npos ? "" : tr.substr(b, tr.find_last_not_of(" \t\n\r") - b + 1);
 			if (check("trimmed", s.trimmed(), tr)) return 1; { String u(t); u.trim(); if (check("trim", u, tr)) return 1; } } }
+		// operator< is the byte-wise order of std::string, prefixes and the empty string included
+		{ const char* w[] = { "", "a", "ab", "abc", "b", "aa", "a\x7f", "abcdefghijklmnop", "abcdefghijklmnopq", "abcdefghijklmno" }; for (const char* x : w) for (const char* y : w) if ((String(x) < String(y)) != (std::string(x) < std::string(y))) { printf("REPRODUCED String(\"%s\") < String(\"%s\") gives %d\n", x, y, (int)(String(x) < String(y))); return 1; } }
 		// integers: boundaries of every width, to text and back
 		{ long long vals[] = { 0, 1, -1, 9, 10, -10, 99999, 2147483647LL, -2147483647LL - 1, 4294967295LL, 99999999999999LL, -99999999999999LL, -100000000000000LL, 999999999999999LL, -999999999999999LL, 9223372036854775807LL, -9223372036854775807LL - 1 };
 		  for (long long v : vals) { char b[40]; snprintf(b, 40, "%lld", v); String s((Long)v); if (check("String(Long)", s, b)) return 1; if (s.toLong() != v) { printf("REPRODUCED Long round trip of %lld\n", v); return 1; }
